@@ -1,6 +1,1258 @@
-//! Component `sched` (see /verif/FRAMEWORK.md).
+//! Component `sched` (property C15): one scheduling decision of the real tako scheduler
+//! (`create_task_batches` -> `run_scheduling_solver` (HiGHS) -> `create_task_mapping`) on small instances.
+//!
+//! Per case the harness builds a real `VerifServer`, makes the workers partly busy, submits the ready tasks,
+//! runs ONE real scheduling round and prints
+//!   * the instance as read back from the real core (`op worker|class|queue`),
+//!   * the choices of the round (`op sol` = value of every MILP variable in HiGHS' solution, `op place` =
+//!     which task ids went to which worker),
+//!   * after `op schedule`: the batches and the MILP *as the real code built them* (recorded by the hooks in
+//!     `tako::verif::sched_c15`), the ids `take_tasks` popped, the queues left, and the verdicts
+//!     feasible / optimal / fragment / c15 — which the harness computes with its own (Rust) copy of the
+//!     modelled encoding and the Lean driver recomputes from the Lean model.
+//! Monitor `c15.priority`: brute-force evaluation of the pair condition of C15 on the REAL placement.
+use std::collections::{BTreeMap, BTreeSet};
+use std::time::{Duration, Instant};
 
-pub fn main(mode: &str, _args: &[String]) {
-    eprintln!("component sched: mode {mode} not implemented yet");
-    std::process::exit(2);
+use smallvec::smallvec;
+use tako::events::EventProcessor;
+use tako::gateway::{
+    CrashLimit, LostWorkerReason, ResourceRequest, ResourceRequestEntry, ResourceRequestVariants,
+    SharedTaskConfiguration, TaskConfiguration, TaskSubmit,
+};
+use tako::internal::messages::common::TaskFailInfo;
+use tako::internal::messages::worker::{FromWorkerMessage, TaskRunningMsg, WorkerTaskUpdate};
+use tako::resources::{AllocationRequest, ResourceAmount, ResourceDescriptor};
+use tako::server::SchedulerConfig;
+use tako::task::SerializedTaskContext;
+use tako::verif::sched_c15::{Rec, RecBatch, RecMilp, VarKind};
+use tako::verif::server::{SnapTaskState, VerifSchedulerResult, VerifServer};
+use tako::worker::{ServerLostPolicy, WorkerConfiguration, WorkerOverview};
+use tako::{InstanceId, JobId, JobTaskId, ResourceVariantId, TaskId, UserPriority, WorkerId};
+
+use crate::util::{GenArgs, Rng, Trace, catch, list};
+
+const UNIT: u64 = 10_000;
+
+fn tid(t: TaskId) -> String {
+    format!("{}.{}", t.job_id().as_num(), t.job_task_id().as_num())
+}
+
+fn parse_tid(s: &str) -> TaskId {
+    let (a, b) = s.split_once('.').expect("task id j.t");
+    TaskId::new(JobId::new(a.parse().unwrap()), JobTaskId::new(b.parse().unwrap()))
+}
+
+// ------------------------------------------------------------------------------------------------
+// specification of a case (what the generator chooses / what a replay file describes)
+
+#[derive(Debug, Clone)]
+struct WorkerSpec {
+    cpus: u32,
+    /// request classes (index into `Spec::classes`) of the tasks that keep the worker busy
+    pre: Vec<usize>,
+    /// request classes the worker has rejected (blocked)
+    blocked: Vec<usize>,
+}
+
+#[derive(Debug, Clone)]
+struct Spec {
+    /// cpu amount (whole units) per request class, in creation order (= rq id order)
+    classes: Vec<u32>,
+    workers: Vec<WorkerSpec>,
+    /// ready tasks: (id, class index, user priority)
+    tasks: Vec<(TaskId, usize, i32)>,
+    running: bool,
+}
+
+// ------------------------------------------------------------------------------------------------
+// the instance as read back from the real core
+
+#[derive(Debug, Clone)]
+struct WorkerI {
+    id: u32,
+    total: u64,
+    free: u64,
+    /// rq ids of the tasks reserved on the worker
+    assigned: Vec<u32>,
+    blocked: Vec<u32>,
+}
+
+#[derive(Debug, Clone)]
+struct ClassI {
+    need: u64,
+    weight: u64,
+}
+
+#[derive(Debug, Clone)]
+struct Inst {
+    workers: Vec<WorkerI>,
+    classes: Vec<ClassI>,
+    /// per rq id: (user priority, ids ascending) in descending priority
+    queues: Vec<Vec<(i64, Vec<TaskId>)>>,
+}
+
+impl Inst {
+    fn prio_of(&self) -> BTreeMap<TaskId, (u32, i64)> {
+        let mut m = BTreeMap::new();
+        for (rq, q) in self.queues.iter().enumerate() {
+            for (p, ids) in q {
+                for t in ids {
+                    m.insert(*t, (rq as u32, *p));
+                }
+            }
+        }
+        m
+    }
+    fn ready_classes(&self) -> usize {
+        self.queues.iter().filter(|q| !q.is_empty()).count()
+    }
+}
+
+struct NoEvents;
+impl EventProcessor for NoEvents {
+    fn on_task_finished(&mut self, _task_id: TaskId) {}
+    fn on_task_started(
+        &mut self,
+        _task_id: TaskId,
+        _instance_id: InstanceId,
+        _worker_ids: &[WorkerId],
+        _rv_id: ResourceVariantId,
+        _context: SerializedTaskContext,
+    ) {
+    }
+    fn on_task_error(&mut self, _task_id: TaskId, _consumers_id: Vec<TaskId>, _error_info: TaskFailInfo) -> Vec<TaskId> {
+        Vec::new()
+    }
+    fn on_worker_new(&mut self, _worker_id: WorkerId, _configuration: &WorkerConfiguration) {}
+    fn on_worker_lost(&mut self, _worker_id: WorkerId, _running_tasks: &[TaskId], _reason: LostWorkerReason) {}
+    fn on_worker_overview(&mut self, _overview: Box<WorkerOverview>) {}
+    fn on_task_notify(&mut self, _task_id: TaskId, _worker_id: WorkerId, _message: Box<[u8]>) {}
+}
+
+fn worker_config(n: u32, cpus: u32) -> WorkerConfiguration {
+    WorkerConfiguration {
+        resources: ResourceDescriptor::simple_cpus(cpus),
+        listen_address: format!("1.1.1.{n}:123"),
+        hostname: format!("test{n}"),
+        group: "default".to_string(),
+        work_dir: Default::default(),
+        heartbeat_interval: Duration::from_millis(1000),
+        overview_configuration: Default::default(),
+        idle_timeout: None,
+        time_limit: None,
+        retract_check_interval: Duration::from_secs(30),
+        on_server_lost: ServerLostPolicy::Stop,
+        min_utilization: 0.0,
+        extra: Default::default(),
+    }
+}
+
+fn cpu_rq(cpus: u32) -> ResourceRequestVariants {
+    ResourceRequestVariants::new_simple(ResourceRequest {
+        n_nodes: 0,
+        resources: smallvec![ResourceRequestEntry {
+            resource: "cpus".to_string(),
+            policy: AllocationRequest::Compact(ResourceAmount::new_units(cpus)),
+        }],
+        min_time: Default::default(),
+        weight: Default::default(),
+    })
+}
+
+fn decode_priority(raw: u64) -> i64 {
+    // inverse of Priority::from_user_priority on its image
+    (((raw >> 32) as u32) ^ 0x8000_0000) as i32 as i64
+}
+
+struct Real {
+    server: VerifServer,
+    now: Instant,
+    rq_ids: Vec<tako::resources::ResourceRqId>,
+}
+
+fn submit(real: &Real, tasks: &[(TaskId, usize, i32)]) {
+    if tasks.is_empty() {
+        return;
+    }
+    let mut shared: Vec<SharedTaskConfiguration> = Vec::new();
+    let mut prios: Vec<i32> = Vec::new();
+    let mut confs = Vec::new();
+    for (id, class, prio) in tasks {
+        let idx = match prios.iter().position(|p| p == prio) {
+            Some(i) => i,
+            None => {
+                prios.push(*prio);
+                shared.push(SharedTaskConfiguration {
+                    time_limit: None,
+                    priority: UserPriority::new(*prio),
+                    crash_limit: CrashLimit::MaxCrashes(5),
+                    body: Vec::<u8>::new().into(),
+                });
+                prios.len() - 1
+            }
+        };
+        confs.push(TaskConfiguration {
+            id: *id,
+            resource_rq_id: real.rq_ids[*class],
+            shared_data_index: idx as u32,
+            task_deps: Default::default(),
+            entry: None,
+        });
+    }
+    real.server
+        .server_ref()
+        .add_new_tasks(TaskSubmit { tasks: confs, shared_data: shared, adjust_instance_id_and_crash_counters: Default::default() })
+        .expect("add_new_tasks");
+}
+
+/// Builds the real server in the state the spec describes. Err = the setup did not come out as intended.
+fn build_real(spec: &Spec) -> Result<Real, String> {
+    let server = VerifServer::new(
+        "verif".to_string(),
+        WorkerId::new(0),
+        SchedulerConfig {
+            proactive_filling_reserve: 1_000_000,
+            proactive_filling_max: 1,
+            mip_time_limit: Duration::from_secs(20),
+        },
+    );
+    server.set_client_events(Box::new(NoEvents));
+    let mut real = Real { server, now: Instant::now(), rq_ids: Vec::new() };
+    for cpus in &spec.classes {
+        let id = real.server.server_ref().get_or_create_resource_rq_id(&cpu_rq(*cpus));
+        real.rq_ids.push(id);
+    }
+    // filler class: 1 cpu (may coincide with a class of the spec)
+    let filler_class = match spec.classes.iter().position(|c| *c == 1) {
+        Some(i) => i,
+        None => {
+            let id = real.server.server_ref().get_or_create_resource_rq_id(&cpu_rq(1));
+            real.rq_ids.push(id);
+            real.rq_ids.len() - 1
+        }
+    };
+    let mut fillers: Vec<TaskId> = Vec::new();
+    let mut pre_ids: Vec<(TaskId, WorkerId)> = Vec::new();
+    for (j, w) in spec.workers.iter().enumerate() {
+        let (wid, _) = real.server.add_worker(worker_config(j as u32 + 1, w.cpus), real.now);
+        // the worker is filled completely (tasks that keep it busy + rejected dummies + 1-cpu fillers) while it is
+        // the only one with free resources, so everything lands on it; dummies and fillers are cancelled afterwards
+        let job = JobId::new(9000 + j as u32);
+        let mut batch: Vec<(TaskId, usize, i32)> = Vec::new();
+        let mut used = 0u32;
+        let mut n = 0u32;
+        for c in &w.pre {
+            batch.push((TaskId::new(job, JobTaskId::new(n)), *c, 0));
+            used += spec.classes[*c];
+            n += 1;
+        }
+        let mut dummies = Vec::new();
+        for c in &w.blocked {
+            let t = TaskId::new(job, JobTaskId::new(n));
+            batch.push((t, *c, 0));
+            dummies.push(t);
+            used += spec.classes[*c];
+            n += 1;
+        }
+        if used > w.cpus {
+            return Err(format!("worker {j}: busy tasks need {used} > {} cpus", w.cpus));
+        }
+        let mut my_fillers = Vec::new();
+        for _ in used..w.cpus {
+            let t = TaskId::new(job, JobTaskId::new(n));
+            batch.push((t, filler_class, 0));
+            my_fillers.push(t);
+            n += 1;
+        }
+        submit(&real, &batch);
+        if !batch.is_empty() {
+            let r = real.server.run_scheduling(real.now);
+            if r != VerifSchedulerResult::Done {
+                return Err(format!("setup round of worker {j}: {r:?}"));
+            }
+        }
+        let snap = real.server.core_snapshot();
+        for (t, _, _) in &batch {
+            let st = &snap.tasks.iter().find(|x| x.id == *t).unwrap().state;
+            match st {
+                SnapTaskState::Assigned(x, _) if *x == wid.as_num() => {}
+                other => return Err(format!("setup: task {} of worker {j} is {other:?}", tid(*t))),
+            }
+        }
+        if !dummies.is_empty() {
+            for t in &dummies {
+                real.server.deliver(
+                    wid,
+                    FromWorkerMessage::TaskUpdate(smallvec![WorkerTaskUpdate::RejectRequest {
+                        task_id: *t,
+                        rv_id: Some(ResourceVariantId::new(0)),
+                    }]),
+                );
+            }
+            // the rejected dummies leave; their room is filled again so that later workers' tasks cannot land here
+            real.server.server_ref().cancel_tasks(&dummies);
+            let mut refill: Vec<(TaskId, usize, i32)> = Vec::new();
+            let freed: u32 = w.blocked.iter().map(|c| spec.classes[*c]).sum();
+            for _ in 0..freed {
+                let t = TaskId::new(job, JobTaskId::new(n));
+                refill.push((t, filler_class, 0));
+                my_fillers.push(t);
+                n += 1;
+            }
+            submit(&real, &refill);
+            let r = real.server.run_scheduling(real.now);
+            if r != VerifSchedulerResult::Done {
+                return Err(format!("setup refill round of worker {j}: {r:?}"));
+            }
+            let snap = real.server.core_snapshot();
+            for (t, _, _) in &refill {
+                let st = &snap.tasks.iter().find(|x| x.id == *t).unwrap().state;
+                match st {
+                    SnapTaskState::Assigned(x, _) if *x == wid.as_num() => {}
+                    other => return Err(format!("setup: refill task {} of worker {j} is {other:?}", tid(*t))),
+                }
+            }
+        }
+        // fillers of this worker stay until all workers exist
+        fillers.extend(my_fillers);
+        for c in 0..w.pre.len() {
+            pre_ids.push((TaskId::new(job, JobTaskId::new(c as u32)), wid));
+        }
+    }
+    if !fillers.is_empty() {
+        real.server.server_ref().cancel_tasks(&fillers);
+    }
+    if spec.running {
+        for (t, w) in &pre_ids {
+            real.server.deliver(
+                *w,
+                FromWorkerMessage::TaskUpdate(smallvec![WorkerTaskUpdate::Running(TaskRunningMsg {
+                    task_id: *t,
+                    rv_id: ResourceVariantId::new(0),
+                    context: Default::default(),
+                })]),
+            );
+        }
+    }
+    for w in real.server.connected_workers() {
+        real.server.drain_messages(w);
+    }
+    tako::verif::sched::take();
+    tako::verif::sched_c15::take();
+    submit(&real, &spec.tasks);
+    Ok(real)
+}
+
+fn read_instance(real: &Real) -> Result<Inst, String> {
+    let snap = real.server.core_snapshot();
+    let core_classes = tako::verif::sched_c15::classes(&real.server);
+    let mut classes = Vec::new();
+    for c in &core_classes {
+        if c.len() != 1 {
+            return Err("multi-variant class".into());
+        }
+        let v = &c[0];
+        if v.n_nodes != 0 || v.entries.len() != 1 || v.entries[0].0 != 0 || v.min_time_ms != 0 {
+            return Err("class outside the cpu-only single-node fragment".into());
+        }
+        let need = v.entries[0].1.ok_or("all-request")?;
+        classes.push(ClassI { need, weight: v.weight });
+    }
+    let mut task_rq = BTreeMap::new();
+    for t in &snap.tasks {
+        task_rq.insert(t.id, t.rq);
+    }
+    let mut workers = Vec::new();
+    for w in &snap.workers {
+        let Some((assigned, free, prefilled)) = &w.sn else { return Err("mn worker".into()) };
+        if !prefilled.is_empty() || w.total.len() != 1 || free.len() != 1 || w.stopping {
+            return Err("worker outside the fragment".into());
+        }
+        let mut a: Vec<u32> = assigned.iter().map(|t| task_rq[t]).collect();
+        a.sort();
+        let mut blocked = Vec::new();
+        for (rq, v) in &w.blocked {
+            if *v != 0 {
+                return Err("blocked variant".into());
+            }
+            blocked.push(*rq);
+        }
+        workers.push(WorkerI { id: w.id, total: w.total[0], free: free[0], assigned: a, blocked });
+    }
+    if !snap.redirects.is_empty() {
+        return Err("redirects".into());
+    }
+    let mut queues = Vec::new();
+    for q in &snap.queues {
+        if q.prefill.is_some() {
+            return Err("prefill".into());
+        }
+        queues.push(q.ready.iter().map(|(p, ids)| (decode_priority(*p), ids.clone())).collect::<Vec<_>>());
+    }
+    while queues.len() < classes.len() {
+        queues.push(Vec::new());
+    }
+    Ok(Inst { workers, classes, queues })
+}
+
+// ------------------------------------------------------------------------------------------------
+// the harness' own copy of the modelled encoding (written from the Lean model's description, not by calling
+// the scheduler): batches, MILP rows with exact integer coefficients, exhaustive optimum
+
+#[derive(Debug, Clone, PartialEq, Eq)]
+struct MBatch {
+    rq: u32,
+    size: u64,
+    limit: u64,
+    reached: bool,
+    blocker: bool,
+    cuts: Vec<(u64, Vec<(u32, Option<u64>)>)>,
+}
+
+fn model_batches(inst: &Inst) -> Vec<MBatch> {
+    let qs: Vec<u32> = (0..inst.queues.len() as u32).filter(|c| !inst.queues[*c as usize].is_empty()).collect();
+    let mut bs: Vec<MBatch> = qs
+        .iter()
+        .map(|rq| {
+            let need = inst.classes[*rq as usize].need;
+            let limit = inst.workers.iter().filter(|w| w.total >= need).map(|w| (w.free / need).max(1)).sum();
+            MBatch { rq: *rq, size: 0, limit, reached: false, blocker: false, cuts: vec![] }
+        })
+        .collect();
+    let levels: Vec<Vec<(i64, u64)>> =
+        qs.iter().map(|rq| inst.queues[*rq as usize].iter().map(|(p, ids)| (*p, ids.len() as u64)).collect()).collect();
+    // pos[i] = Some(index of the current level) | None = exhausted or stopped at the limit
+    let mut pos: Vec<Option<usize>> = levels.iter().map(|l| if l.is_empty() { None } else { Some(0) }).collect();
+    let mut unique: Option<usize> = None;
+    let add = |bs: &mut Vec<MBatch>, pos: &mut Vec<Option<usize>>, i: usize| {
+        let k = pos[i].unwrap();
+        bs[i].size += levels[i][k].1;
+        if bs[i].size > bs[i].limit {
+            bs[i].size = bs[i].limit;
+            bs[i].reached = true;
+            pos[i] = None;
+        } else {
+            pos[i] = if k + 1 < levels[i].len() { Some(k + 1) } else { None };
+        }
+    };
+    loop {
+        let top = (0..bs.len()).filter_map(|i| pos[i].map(|k| levels[i][k].0)).max();
+        let Some(top) = top else { break };
+        let found: Vec<usize> = (0..bs.len()).filter(|i| pos[*i].map(|k| levels[*i][k].0) == Some(top)).collect();
+        if found.len() == 1 && unique == Some(found[0]) {
+            add(&mut bs, &mut pos, found[0]);
+        } else {
+            for i in &found {
+                let size = bs[*i].size;
+                let mut blockers = Vec::new();
+                for j in 0..bs.len() {
+                    if j != *i && (bs[j].size > 0 || bs[j].reached) {
+                        bs[j].blocker = true;
+                        blockers.push((bs[j].rq, if bs[j].reached { None } else { Some(bs[j].size) }));
+                    }
+                }
+                if !blockers.is_empty() {
+                    bs[*i].cuts.push((size, blockers));
+                }
+            }
+            for i in &found {
+                add(&mut bs, &mut pos, *i);
+            }
+            unique = if found.len() == 1 { Some(found[0]) } else { None };
+        }
+    }
+    for b in &bs {
+        assert!(b.cuts.len() <= 32, "prune_progressive is outside the generated space");
+    }
+    bs.retain(|b| b.size > 0);
+    bs
+}
+
+fn of_rec_batches(bs: &[RecBatch]) -> Vec<MBatch> {
+    bs.iter()
+        .map(|b| MBatch {
+            rq: b.rq,
+            size: b.size as u64,
+            limit: b.limit as u64,
+            reached: b.limit_reached,
+            blocker: b.is_blocker,
+            cuts: b
+                .cuts
+                .iter()
+                .map(|c| (c.size as u64, c.blockers.iter().map(|(r, s)| (*r, s.map(|x| x as u64))).collect()))
+                .collect(),
+        })
+        .collect()
+}
+
+fn show_batch(b: &MBatch) -> String {
+    let cuts = list(b.cuts.iter().map(|(k, bl)| {
+        format!(
+            "{k}/{}",
+            bl.iter()
+                .map(|(r, s)| format!("{r}:{}", s.map(|x| x.to_string()).unwrap_or("*".into())))
+                .collect::<Vec<_>>()
+                .join("+")
+        )
+    }));
+    format!("batch {} size={} limit={} reached={} blocker={} cuts={}", b.rq, b.size, b.limit, b.reached as u8, b.blocker as u8, cuts)
+}
+
+/// variable of the modelled MILP; the derived order is the canonical order of the trace
+#[derive(Debug, Clone, Copy, PartialEq, Eq, PartialOrd, Ord, Hash)]
+enum Var {
+    P(u32, u32),
+    R(u32, u32),
+    B(u32, u64),
+}
+
+fn show_var(v: &Var) -> String {
+    match v {
+        Var::P(w, c) => format!("P.{w}.{c}"),
+        Var::R(w, c) => format!("R.{w}.{c}"),
+        Var::B(c, s) => format!("B.{c}.{s}"),
+    }
+}
+
+fn parse_var(s: &str) -> Option<Var> {
+    let p: Vec<&str> = s.split('.').collect();
+    if p.len() != 3 {
+        return None;
+    }
+    let a = p[1].parse().ok()?;
+    match p[0] {
+        "P" => Some(Var::P(a, p[2].parse().ok()?)),
+        "R" => Some(Var::R(a, p[2].parse().ok()?)),
+        "B" => Some(Var::B(a, p[2].parse().ok()?)),
+        _ => None,
+    }
+}
+
+#[derive(Debug, Clone, PartialEq, Eq)]
+struct Row {
+    ge: bool,
+    bound: u128,
+    terms: Vec<(Var, u128)>,
+}
+
+#[derive(Debug, Clone, Default)]
+struct Milp {
+    /// (variable, scaled weight, upper bound of the integer box)
+    vars: Vec<(Var, u128, u64)>,
+    rows: Vec<Row>,
+    den: u128,
+}
+
+fn gap(inst: &Inst, high: u32, low: u32, w: &WorkerI) -> u64 {
+    let nh = inst.classes[high as usize].need;
+    let nl = inst.classes[low as usize].need;
+    let mut free = w.total - nh * (w.total / nh);
+    for a in &w.assigned {
+        if *a != high {
+            free = free.saturating_sub(inst.classes[*a as usize].need);
+        }
+    }
+    free / nl
+}
+
+fn model_milp(inst: &Inst, batches: &[MBatch]) -> Milp {
+    let n = inst.workers.len() as u128;
+    let g: u128 = inst.workers.iter().map(|w| w.free as u128).sum();
+    let g1 = g.max(1);
+    let mut m = Milp { den: g1 * n * 1_000_000, ..Default::default() };
+    let mut count_vars: BTreeMap<u32, Vec<Var>> = BTreeMap::new();
+    let mut workers = inst.workers.clone();
+    workers.sort_by_key(|w| w.id);
+    for (widx, w) in workers.iter().enumerate() {
+        let mut terms = Vec::new();
+        for b in batches {
+            let c = &inst.classes[b.rq as usize];
+            if !w.blocked.contains(&b.rq) && w.free >= c.need {
+                let v = Var::P(w.id, b.rq);
+                let weight = if g == 0 { 0 } else { c.need as u128 * (n - widx as u128) * c.weight as u128 * 100 };
+                m.vars.push((v, weight, w.free / c.need));
+                count_vars.entry(b.rq).or_default().push(v);
+                terms.push((v, c.need as u128));
+            } else if b.blocker && w.total >= c.need {
+                let v = Var::R(w.id, b.rq);
+                m.vars.push((v, widx as u128 * g1 * 10_000, 1));
+                count_vars.entry(b.rq).or_default().push(v);
+                if w.free != 0 {
+                    terms.push((v, w.free as u128));
+                }
+            }
+        }
+        if !terms.is_empty() {
+            m.rows.push(Row { ge: false, bound: w.free as u128, terms });
+        }
+    }
+    let mut bvars: BTreeSet<(u32, u64)> = BTreeSet::new();
+    for b in batches {
+        let Some(cv) = count_vars.get(&b.rq).cloned() else { continue };
+        if !b.reached {
+            m.rows.push(Row { ge: false, bound: b.size as u128, terms: cv.iter().map(|v| (*v, 1)).collect() });
+        }
+        let mut unbounded_done: BTreeSet<u32> = BTreeSet::new();
+        for (cut, blockers) in &b.cuts {
+            for (brq, bsize) in blockers {
+                // B(brq, s), created on first use, only when the blocking class has count variables
+                let mut bvar = |m: &mut Milp, s: u64| -> Option<Var> {
+                    let vars = count_vars.get(brq)?;
+                    let v = Var::B(*brq, s);
+                    if bvars.insert((*brq, s)) {
+                        m.vars.push((v, 0, 1));
+                        let mut terms: Vec<(Var, u128)> = vars.iter().map(|x| (*x, 1)).collect();
+                        terms.push((v, s as u128));
+                        m.rows.push(Row { ge: true, bound: s as u128, terms });
+                    }
+                    Some(v)
+                };
+                let mut zero: Vec<Var> = Vec::new();
+                for w in &workers {
+                    if w.total < inst.classes[*brq as usize].need {
+                        continue;
+                    }
+                    let p = Var::P(w.id, b.rq);
+                    let has_p = m.vars.iter().any(|x| x.0 == p);
+                    let gp = gap(inst, *brq, b.rq, w);
+                    if gp > 0 {
+                        let mut terms: Vec<(Var, u128)> = if has_p { vec![(p, 1)] } else { vec![] };
+                        match bsize {
+                            Some(s) => {
+                                if let Some(bv) = bvar(&mut m, *s) {
+                                    terms.push((bv, b.size as u128));
+                                    m.rows.push(Row { ge: false, bound: (*cut + b.size + gp) as u128, terms });
+                                }
+                            }
+                            None => m.rows.push(Row { ge: false, bound: (*cut + gp) as u128, terms }),
+                        }
+                    } else if has_p {
+                        zero.push(p);
+                    }
+                }
+                if zero.is_empty() {
+                    continue;
+                }
+                let mut terms: Vec<(Var, u128)> = zero.iter().map(|x| (*x, 1)).collect();
+                match bsize {
+                    Some(s) => {
+                        if let Some(bv) = bvar(&mut m, *s) {
+                            terms.push((bv, b.size as u128));
+                            m.rows.push(Row { ge: false, bound: (b.size + *cut) as u128, terms });
+                        }
+                    }
+                    None => {
+                        if unbounded_done.insert(*brq) {
+                            m.rows.push(Row { ge: false, bound: *cut as u128, terms });
+                        }
+                    }
+                }
+            }
+        }
+    }
+    m
+}
+
+fn gcd(a: u128, b: u128) -> u128 {
+    if b == 0 { a } else { gcd(b, a % b) }
+}
+
+/// canonical text of a row: terms sorted by variable, equal variables merged, everything divided by the gcd
+fn show_row(r: &Row) -> String {
+    let mut terms: BTreeMap<Var, u128> = BTreeMap::new();
+    for (v, c) in &r.terms {
+        *terms.entry(*v).or_default() += *c;
+    }
+    let mut g = r.bound;
+    for c in terms.values() {
+        g = gcd(g, *c);
+    }
+    let g = g.max(1);
+    let t = list(terms.iter().map(|(v, c)| format!("{}*{}", c / g, show_var(v))));
+    format!("row {} {} {}", if r.ge { "ge" } else { "le" }, r.bound / g, t)
+}
+
+type Assign = BTreeMap<Var, u64>;
+
+fn row_holds(r: &Row, x: &Assign) -> bool {
+    let s: u128 = r.terms.iter().map(|(v, c)| *c * *x.get(v).unwrap_or(&0) as u128).sum();
+    if r.ge { s >= r.bound } else { s <= r.bound }
+}
+
+fn feasible(m: &Milp, x: &Assign) -> bool {
+    m.vars.iter().all(|(v, _, _)| match v {
+        Var::P(..) => true,
+        _ => *x.get(v).unwrap_or(&0) <= 1,
+    }) && m.rows.iter().all(|r| row_holds(r, x))
+}
+
+fn objective(m: &Milp, x: &Assign) -> u128 {
+    m.vars.iter().map(|(v, w, _)| *w * *x.get(v).unwrap_or(&0) as u128).sum()
+}
+
+/// exhaustive optimum over the integer box (P ≤ free/need, R, B ≤ 1); the B variables have weight 0 and only
+/// relax `ge` rows / tighten `le` rows, so for fixed P, R the smallest feasible B is taken
+fn brute_best(m: &Milp) -> Option<u128> {
+    let pr: Vec<(Var, u128, u64)> = m.vars.iter().filter(|v| !matches!(v.0, Var::B(..))).cloned().collect();
+    let bs: Vec<Var> = m.vars.iter().filter(|v| matches!(v.0, Var::B(..))).map(|v| v.0).collect();
+    let le_rows: Vec<&Row> = m.rows.iter().filter(|r| !r.ge).collect();
+    let mut best: Option<u128> = None;
+    let mut x: Assign = BTreeMap::new();
+    fn rec(
+        i: usize,
+        pr: &[(Var, u128, u64)],
+        bs: &[Var],
+        m: &Milp,
+        le_rows: &[&Row],
+        x: &mut Assign,
+        best: &mut Option<u128>,
+    ) {
+        if i == pr.len() {
+            for b in bs {
+                x.insert(*b, 0);
+            }
+            for b in bs {
+                let ok0 = m.rows.iter().filter(|r| r.ge && r.terms.iter().any(|t| t.0 == *b)).all(|r| row_holds(r, x));
+                if !ok0 {
+                    x.insert(*b, 1);
+                }
+            }
+            if feasible(m, x) {
+                let o = objective(m, x);
+                if best.is_none_or(|b| o > b) {
+                    *best = Some(o);
+                }
+            }
+            for b in bs {
+                x.remove(b);
+            }
+            return;
+        }
+        let (v, _, ub) = pr[i];
+        for val in 0..=ub {
+            x.insert(v, val);
+            // prune: le rows have non-negative coefficients
+            if le_rows.iter().all(|r| {
+                let s: u128 = r.terms.iter().map(|(v, c)| *c * *x.get(v).unwrap_or(&0) as u128).sum();
+                s <= r.bound
+            }) {
+                rec(i + 1, pr, bs, m, le_rows, x, best);
+            }
+        }
+        x.remove(&v);
+    }
+    rec(0, &pr, &bs, m, &le_rows, &mut x, &mut best);
+    best
+}
+
+// ------------------------------------------------------------------------------------------------
+// the C15 pair condition, evaluated on the real placement (independent of the MILP)
+
+struct PairViolation {
+    high: TaskId,
+    low: TaskId,
+    worker: u32,
+}
+
+fn c15_pairs(inst: &Inst, placed: &BTreeMap<TaskId, u32>) -> Vec<PairViolation> {
+    let info = inst.prio_of();
+    let mut res = Vec::new();
+    for (h, (hc, hp)) in &info {
+        if placed.contains_key(h) {
+            continue;
+        }
+        let need_h = inst.classes[*hc as usize].need;
+        // the documented exception: another capable worker is too busy to start it now
+        let waits_for_busy = |w: &WorkerI| inst.workers.iter().any(|o| o.id != w.id && o.total >= need_h && o.free < need_h);
+        for w in &inst.workers {
+            if w.blocked.contains(hc) {
+                continue;
+            }
+            let kept: u64 = placed
+                .iter()
+                .filter(|(t, pw)| **pw == w.id && info[*t].1 >= *hp)
+                .map(|(t, _)| inst.classes[info[t].0 as usize].need)
+                .sum();
+            if kept + need_h > w.free {
+                continue;
+            }
+            if waits_for_busy(w) {
+                continue;
+            }
+            for (l, pw) in placed {
+                if *pw == w.id && info[l].1 < *hp {
+                    res.push(PairViolation { high: *h, low: *l, worker: w.id });
+                }
+            }
+        }
+    }
+    res
+}
+
+fn fragment(inst: &Inst) -> &'static str {
+    let rc = inst.ready_classes();
+    if rc <= 1 {
+        "F1"
+    } else if inst.workers.len() == 1 && rc <= 2 {
+        "F2"
+    } else {
+        "out"
+    }
+}
+
+// ------------------------------------------------------------------------------------------------
+// one case
+
+fn scaled_weight(w: f64, den: u128) -> Option<u128> {
+    let x = w * den as f64;
+    let r = x.round();
+    if r < 0.0 || (x - r).abs() > 1e-4 * (1.0 + r.abs() * 1e-9) {
+        None
+    } else {
+        Some(r as u128)
+    }
+}
+
+fn int_coef(x: f64) -> Option<u128> {
+    let y = x * UNIT as f64;
+    let r = y.round();
+    if r < 0.0 || (y - r).abs() > 1e-6 { None } else { Some(r as u128) }
+}
+
+fn var_of_kind(k: &VarKind) -> Option<Var> {
+    match k {
+        VarKind::Placement { worker, rq, variant: 0 } => Some(Var::P(*worker, *rq)),
+        VarKind::Reservation { worker, rq } => Some(Var::R(*worker, *rq)),
+        VarKind::Blocker { rq, size } => Some(Var::B(*rq, *size as u64)),
+        _ => None,
+    }
+}
+
+fn print_instance(t: &mut Trace, inst: &Inst) {
+    for w in &inst.workers {
+        t.op(&format!("worker {} {} {} {} {}", w.id, w.total, w.free, list(w.assigned.iter()), list(w.blocked.iter())));
+    }
+    for (rq, c) in inst.classes.iter().enumerate() {
+        t.op(&format!("class {rq} {} {}", c.need, c.weight));
+    }
+    for (rq, q) in inst.queues.iter().enumerate() {
+        t.op(&format!(
+            "queue {rq} {}",
+            list(q.iter().map(|(p, ids)| format!("{p}:{}", ids.iter().map(|x| tid(*x)).collect::<Vec<_>>().join("+"))))
+        ));
+    }
+}
+
+fn run_case(t: &mut Trace, idx: u64, subseed: u64, spec: &Spec, stats: &mut Stats) {
+    let header = format!(
+        "nw={} nc={} nt={} busy={} blocked={}",
+        spec.workers.len(),
+        spec.classes.len(),
+        spec.tasks.len(),
+        spec.workers.iter().map(|w| w.pre.len()).sum::<usize>(),
+        spec.workers.iter().map(|w| w.blocked.len()).sum::<usize>()
+    );
+    t.case(idx, subseed, &header);
+    let real = match catch(|| build_real(spec)) {
+        Ok(Ok(r)) => r,
+        Ok(Err(e)) => {
+            stats.skip_reasons.push(format!("case {idx}: {e}"));
+            stats.skipped += 1;
+            t.end();
+            return;
+        }
+        Err(p) => {
+            t.op("setup");
+            t.out(&format!("!panic {p}"));
+            t.end();
+            return;
+        }
+    };
+    let inst = match read_instance(&real) {
+        Ok(i) => i,
+        Err(e) => {
+            stats.skip_reasons.push(format!("case {idx}: outside the modelled space: {e}"));
+            stats.skipped += 1;
+            t.end();
+            return;
+        }
+    };
+    print_instance(t, &inst);
+    let mut real = real;
+    let result = catch(|| real.server.run_scheduling(real.now));
+    let result = match result {
+        Ok(r) => r,
+        Err(p) => {
+            t.op("schedule panic");
+            t.out(&format!("!panic {p}"));
+            t.end();
+            return;
+        }
+    };
+    let sn = tako::verif::sched::take();
+    let recs = tako::verif::sched_c15::take();
+    let mut rec_batches: Option<Vec<RecBatch>> = None;
+    let mut rec_milp: Option<RecMilp> = None;
+    for r in recs {
+        match r {
+            Rec::Batches(b) => rec_batches = Some(b),
+            Rec::Milp(m) => rec_milp = Some(m),
+        }
+    }
+    let after = real.server.core_snapshot();
+    // placement of this round: ready tasks that are now assigned
+    let info = inst.prio_of();
+    let mut placed: BTreeMap<TaskId, u32> = BTreeMap::new();
+    for task in &after.tasks {
+        if info.contains_key(&task.id)
+            && let SnapTaskState::Assigned(w, _) = task.state
+        {
+            placed.insert(task.id, w);
+        }
+    }
+    // solution values of the real MILP
+    let mut sol: Assign = BTreeMap::new();
+    let mut unnamed = 0;
+    if let Some(m) = &rec_milp {
+        for v in &m.vars {
+            match var_of_kind(&v.kind) {
+                Some(var) => {
+                    let val = m.values.get(v.index).copied().unwrap_or(0.0);
+                    sol.insert(var, val.round().max(0.0) as u64);
+                }
+                None => unnamed += 1,
+            }
+        }
+    }
+    t.op(&format!("sol {}", list(sol.iter().map(|(v, x)| format!("{}={x}", show_var(v))))));
+    for w in &inst.workers {
+        let ids: Vec<String> = placed.iter().filter(|(_, pw)| **pw == w.id).map(|(x, _)| tid(*x)).collect();
+        t.op(&format!("place {} {}", w.id, list(ids)));
+    }
+    let status = match result {
+        VerifSchedulerResult::Done => "done",
+        VerifSchedulerResult::NeedMoreCompute => "needmore",
+        VerifSchedulerResult::NoProgress => "noprogress",
+    };
+    t.op(&format!("schedule {status}"));
+
+    // --- what the real code built
+    let real_batches = of_rec_batches(rec_batches.as_deref().unwrap_or(&[]));
+    for b in &real_batches {
+        t.out(&show_batch(b));
+    }
+    let mbatches = model_batches(&inst);
+    let mm = model_milp(&inst, &mbatches);
+    t.out(&format!("den {}", mm.den));
+    let mut real_rows: Vec<String> = Vec::new();
+    let mut real_vars: Vec<String> = Vec::new();
+    if let Some(m) = &rec_milp {
+        let names: BTreeMap<usize, Var> = m.vars.iter().filter_map(|v| var_of_kind(&v.kind).map(|x| (v.index, x))).collect();
+        let mut vs: Vec<(Var, String)> = Vec::new();
+        for v in &m.vars {
+            if let Some(var) = names.get(&v.index) {
+                let w = scaled_weight(v.weight, mm.den).map(|x| x.to_string()).unwrap_or("!inexact".into());
+                let dom = match (var, v.domain) {
+                    (Var::P(..), 2) | (Var::R(..), 1) | (Var::B(..), 1) => "",
+                    _ => " !domain",
+                };
+                vs.push((*var, format!("var {} {w}{dom}", show_var(var))));
+            }
+        }
+        vs.sort();
+        real_vars = vs.into_iter().map(|x| x.1).collect();
+        for r in &m.rows {
+            let mut terms = Vec::new();
+            let mut bad = unnamed > 0 && r.terms.iter().any(|(i, _)| !names.contains_key(i));
+            for (i, c) in &r.terms {
+                match (names.get(i), int_coef(*c)) {
+                    (Some(v), Some(c)) => terms.push((*v, c)),
+                    _ => bad = true,
+                }
+            }
+            match (int_coef(r.bound), r.ty, bad) {
+                (Some(b), 0 | 1, false) => real_rows.push(show_row(&Row { ge: r.ty == 0, bound: b, terms })),
+                _ => real_rows.push("row !unmodelled".to_string()),
+            }
+        }
+        real_rows.sort();
+    }
+    for v in &real_vars {
+        t.out(v);
+    }
+    for r in &real_rows {
+        t.out(r);
+    }
+    // --- take_tasks and the queues left
+    let mut taken_lines: Vec<(u32, String)> = Vec::new();
+    for r in &sn {
+        if let tako::verif::sched::Record::Sn { rq, variant, counts, taken } = r {
+            let mut c = counts.clone();
+            c.sort();
+            taken_lines.push((
+                *rq,
+                format!(
+                    "taken {rq} {variant} {} {}",
+                    list(c.iter().map(|(w, n)| format!("{w}={n}"))),
+                    list(taken.iter().map(|x| tid(*x)))
+                ),
+            ));
+        }
+    }
+    taken_lines.sort();
+    for (_, l) in &taken_lines {
+        t.out(l);
+    }
+    for (rq, q) in after.queues.iter().enumerate() {
+        t.out(&format!(
+            "left {rq} {}",
+            list(q.ready.iter().map(|(p, ids)| format!("{}:{}", decode_priority(*p), ids.iter().map(|x| tid(*x)).collect::<Vec<_>>().join("+"))))
+        ));
+    }
+    // --- verdicts (harness copy of the modelled encoding; the Lean driver recomputes them from the Lean model)
+    let model_rows: Vec<String> = {
+        let mut r: Vec<String> = mm.rows.iter().map(show_row).collect();
+        r.sort();
+        r
+    };
+    let model_vars: Vec<String> = {
+        let mut v: Vec<(Var, String)> = mm.vars.iter().map(|(v, w, _)| (*v, format!("var {} {w}", show_var(v)))).collect();
+        v.sort();
+        v.into_iter().map(|x| x.1).collect()
+    };
+    let encoding_same = mbatches == real_batches && model_rows == real_rows && model_vars == real_vars;
+    // deal: every placed task was taken, per (worker, class) as many as the solution says
+    let mut per: BTreeMap<(u32, u32), u64> = BTreeMap::new();
+    for (task, w) in &placed {
+        *per.entry((*w, info[task].0)).or_default() += 1;
+    }
+    let sol_p: BTreeMap<(u32, u32), u64> =
+        sol.iter().filter_map(|(v, x)| if let Var::P(w, c) = v { (*x > 0).then_some(((*w, *c), *x)) } else { None }).collect();
+    t.out(&format!("deal {}", if per == sol_p { "ok" } else { "mismatch" }));
+    let feas = feasible(&mm, &sol) && sol.keys().all(|v| mm.vars.iter().any(|x| x.0 == *v));
+    let best = brute_best(&mm);
+    let obj = objective(&mm, &sol);
+    let optimal = feas && best == Some(obj);
+    t.out(&format!("feasible {}", feas as u8));
+    t.out(&format!("objective {obj} best {}", best.map(|b| b.to_string()).unwrap_or("-".into())));
+    t.out(&format!("optimal {}", optimal as u8));
+    let frag = fragment(&inst);
+    t.out(&format!("frag {frag}"));
+    let pairs = c15_pairs(&inst, &placed);
+    t.out(&format!("c15 {}", if pairs.is_empty() { "ok" } else { "violated" }));
+    stats.cases += 1;
+    *stats.frag.entry(frag).or_default() += 1;
+    if result != VerifSchedulerResult::Done {
+        stats.not_optimal += 1;
+    } else if let Some(p) = pairs.first() {
+        let sig = match (frag, encoding_same && optimal) {
+            ("out", true) => "outside-F-optimal-for-model".to_string(),
+            ("out", false) => "outside-F-not-optimal-for-model".to_string(),
+            (f, true) => format!("in-{f}"),
+            (f, false) => format!("in-{f}-not-optimal-for-model"),
+        };
+        *stats.viol.entry(frag).or_default() += 1;
+        t.mon_fail(
+            "c15.priority",
+            &sig,
+            &format!(
+                "task {} (priority {}) stays ready although it fits on worker {} without the lower-priority task {} (priority {}) dispatched there; {} pair(s)",
+                tid(p.high),
+                info[&p.high].1,
+                p.worker,
+                tid(p.low),
+                info[&p.low].1,
+                pairs.len()
+            ),
+        );
+    }
+    if !encoding_same {
+        stats.enc_differs += 1;
+    }
+    if !optimal {
+        stats.impl_not_model_optimal += 1;
+    }
+    t.end();
+}
+
+#[derive(Default)]
+struct Stats {
+    cases: u64,
+    skipped: u64,
+    skip_reasons: Vec<String>,
+    not_optimal: u64,
+    enc_differs: u64,
+    impl_not_model_optimal: u64,
+    frag: BTreeMap<&'static str, u64>,
+    viol: BTreeMap<&'static str, u64>,
+}
+
+// ------------------------------------------------------------------------------------------------
+// generator
+
+fn gen_spec(rng: &mut Rng, thorough: bool) -> Spec {
+    let max_workers = 3;
+    let nw = rng.weighted(&[3, 4, 3]) + 1;
+    let nw = nw.min(max_workers);
+    // request classes: distinct cpu sizes 1..4 in random order; some only used by busy tasks
+    let mut sizes: Vec<u32> = vec![1, 2, 3, 4];
+    for i in (1..sizes.len()).rev() {
+        let j = rng.below(i as u64 + 1) as usize;
+        sizes.swap(i, j);
+    }
+    let n_ready = rng.weighted(&[2, 4, 4]) + 1;
+    let n_classes = (n_ready + rng.weighted(&[6, 3, 1])).min(4);
+    let classes: Vec<u32> = sizes[..n_classes].to_vec();
+    let busy_case = rng.chance(2, 5);
+    let mut workers = Vec::new();
+    for _ in 0..nw {
+        let cpus = rng.range(1, 6) as u32;
+        let mut pre = Vec::new();
+        let mut blocked = Vec::new();
+        let mut used = 0;
+        if busy_case && rng.chance(2, 3) {
+            for _ in 0..rng.range(1, 2) {
+                let c = rng.below(n_classes as u64) as usize;
+                if used + classes[c] <= cpus {
+                    used += classes[c];
+                    pre.push(c);
+                }
+            }
+        }
+        if rng.chance(1, 12) {
+            let c = rng.below(n_classes as u64) as usize;
+            // (the 1-cpu class is what the setup fills workers with, it cannot be the rejected one)
+            if classes[c] != 1 && used + classes[c] <= cpus {
+                blocked.push(c);
+            }
+        }
+        workers.push(WorkerSpec { cpus, pre, blocked });
+    }
+    let max_tasks = if thorough { 12 } else { 10 };
+    let nt = rng.range(1, max_tasks);
+    // up to 8 priority levels from a palette that includes the extremes of i32
+    let palette: [i32; 10] = [0, 1, 2, 3, -1, -2, 5, 100, i32::MAX, i32::MIN];
+    let n_levels = rng.range(1, 8) as usize;
+    let mut levels: Vec<i32> = Vec::new();
+    while levels.len() < n_levels {
+        let p = if rng.chance(4, 5) { palette[rng.below(4) as usize] } else { *rng.pick(&palette) };
+        if !levels.contains(&p) {
+            levels.push(p);
+        } else if levels.len() >= 4 && rng.chance(1, 2) {
+            break;
+        }
+    }
+    let mut ids: BTreeSet<(u32, u32)> = BTreeSet::new();
+    let mut tasks = Vec::new();
+    for _ in 0..nt {
+        let id = loop {
+            let x = (rng.range(1, 3) as u32, rng.range(0, 30) as u32);
+            if ids.insert(x) {
+                break x;
+            }
+        };
+        let class = rng.below(n_ready as u64) as usize;
+        let prio = *rng.pick(&levels);
+        tasks.push((TaskId::new(JobId::new(id.0), JobTaskId::new(id.1)), class, prio));
+    }
+    Spec { classes, workers, tasks, running: rng.chance(1, 2) }
+}
+
+fn report(stats: &Stats) {
+    for r in stats.skip_reasons.iter().take(3) {
+        eprintln!("sched: skipped {r}");
+    }
+    eprintln!(
+        "sched: cases={} skipped={} solver-not-optimal={} encoding-differs={} impl-not-optimal-for-model={} fragments={:?} c15-violations={:?}",
+        stats.cases, stats.skipped, stats.not_optimal, stats.enc_differs, stats.impl_not_model_optimal, stats.frag, stats.viol
+    );
+}
+
+fn generate(args: &GenArgs) {
+    let mut t = Trace::new();
+    let mut stats = Stats::default();
+    for k in 0..args.cases {
+        let subseed = args.case_seed(k);
+        let mut rng = Rng::new(subseed);
+        let spec = gen_spec(&mut rng, args.thorough);
+        run_case(&mut t, k, subseed, &spec, &mut stats);
+    }
+    t.flush();
+    report(&stats);
+}
+
+// ------------------------------------------------------------------------------------------------
+// replay: rebuild the spec from the `op worker|class|queue` lines of a trace
+
+fn replay() {
+    use std::io::BufRead;
+    let stdin = std::io::stdin();
+    let mut t = Trace::new();
+    let mut stats = Stats::default();
+    let mut cur: Option<(u64, u64, Spec)> = None;
+    for line in stdin.lock().lines() {
+        let line = line.unwrap();
+        let toks: Vec<&str> = line.split_whitespace().collect();
+        match toks.as_slice() {
+            ["case", idx, subseed, ..] => {
+                cur = Some((
+                    idx.parse().unwrap(),
+                    subseed.parse().unwrap(),
+                    Spec { classes: vec![], workers: vec![], tasks: vec![], running: false },
+                ));
+            }
+            ["op", "worker", _id, total, _free, assigned, blocked] => {
+                if let Some((_, _, s)) = &mut cur {
+                    s.workers.push(WorkerSpec {
+                        cpus: (total.parse::<u64>().unwrap() / UNIT) as u32,
+                        pre: crate::util::parse_list(assigned).into_iter().map(|x| x as usize).collect(),
+                        blocked: crate::util::parse_list(blocked).into_iter().map(|x| x as usize).collect(),
+                    });
+                }
+            }
+            ["op", "class", _rq, need, _weight] => {
+                if let Some((_, _, s)) = &mut cur {
+                    s.classes.push((need.parse::<u64>().unwrap() / UNIT) as u32);
+                }
+            }
+            ["op", "queue", rq, entries] => {
+                if let Some((_, _, s)) = &mut cur
+                    && *entries != "-"
+                {
+                    let rq: usize = rq.parse().unwrap();
+                    for e in entries.split(',') {
+                        let (p, ids) = e.split_once(':').unwrap();
+                        for id in ids.split('+') {
+                            s.tasks.push((parse_tid(id), rq, p.parse::<i64>().unwrap() as i32));
+                        }
+                    }
+                }
+            }
+            ["end"] => {
+                if let Some((idx, subseed, spec)) = cur.take() {
+                    run_case(&mut t, idx, subseed, &spec, &mut stats);
+                }
+            }
+            _ => {}
+        }
+    }
+    t.flush();
+    report(&stats);
+}
+
+pub fn main(mode: &str, args: &[String]) {
+    match mode {
+        "gen" => generate(&GenArgs::parse(args)),
+        "replay" => replay(),
+        _ => {
+            eprintln!("component sched: unknown mode {mode}");
+            std::process::exit(2);
+        }
+    }
+}
+
+#[allow(dead_code)]
+fn unused(_: &dyn Fn(&str) -> Option<Var>) {
+    let _ = parse_var;
 }
